@@ -3373,6 +3373,11 @@ impl Value {
         ret
     }
 
+    #[cfg(glass_easel_verif)]
+    pub(super) fn verif_parse_until_end(ps: &mut ParseState) -> Self {
+        Self::parse_until_before(ps, |_| false)
+    }
+
     fn init_scopes_and_binding_map_keys(
         &mut self,
         sas: &mut ScopeAnalyzeState,
